@@ -66,7 +66,7 @@ fn panic_msg(e: Box<dyn std::any::Any + Send>) -> String {
 }
 
 pub fn set_hash_seed(_seed: u64) {
-    #[cfg(hpbf_verif_h1)]
+    #[cfg(hpbf_verif)]
     hpbf::verif::set_hash_seed(_seed);
 }
 
